@@ -407,9 +407,19 @@ class C05(Check):
                     k, v = tok.split(":")
                     k = int(k)
                     if k >= 1000:
-                        # a companion: its own command (valve: Active = "let _internal_status decide") is not judged from the
-                        # reported status; it only counts as a conflicting control for the others
+                        # a companion (`status := Active` of a setting control / `Open` of a base_speed control): it counts as a
+                        # conflicting control for the others; its own command is judged only as "not reported CLOSED" (a valve
+                        # that is Active reports its _internal_status, which is Open or Active, never Closed, away from a tank limit)
                         ctx.count("verdict:companion:%s" % v)
+                        c = ctl[k - 1000]
+                        rep = float(res.link["status"][c["link"]].iloc[ri]) if use_tables else r["links"][c["link"]][0]
+                        if v == "bad" and rep == 0.0 and (k - 1000) not in ambiguous:
+                            failures.append(Failure(
+                                "setting-control-not-reactivated",
+                                "%s t=%s: control %s (IF %s %s %s %s THEN %s %s %s, priority %d) holds on the reported state: its companion puts the link back in "
+                                "service, but %s is reported CLOSED and no triggered control of >= priority closes it"
+                                % (label, r["t"], c["name"], c["src"], c["attr"], c["rel"], c["thr"], c["link"], c.get("act"), c["value"], c["prio"], c["link"]),
+                                {"spec": spec, "oracle": "controlsConsistent(companion)", "time": r["t"], "control": c, "private": r["priv"][tr.links.index(c["link"])]}))
                         continue
                     c = ctl[k]
                     kind = ("level" if c["src"] in tankset else "pressure") + ("" if c.get("act", "status") == "status" else "-setting")
@@ -506,6 +516,8 @@ class C05(Check):
         specs.append(("designed/priority-conflict-high-last", K.priority_conflict_spec(False), None))
         specs.append(("designed/priority-conflict-equal", K.priority_conflict_spec(True, True), None))
         # a RULE with a tank-level premise, rule step < hydraulic step, alone and next to a simple level control
+        specs.append(("designed/several-setting-controls-cond", K.multi_setting_spec("cond"), None))
+        specs.append(("designed/several-setting-controls-time", K.multi_setting_spec("time"), None))
         specs.append(("designed/prv-commanded-open-reverse-flow", K.prv_open_spec("PRV"), None))
         specs.append(("designed/psv-commanded-open-reverse-flow", K.prv_open_spec("PSV"), None))
         specs.append(("designed/valve-user-open-at-tank", K.valve_user_open_spec(), None))
